@@ -7,13 +7,19 @@ SPEC = {
         # white-box: generic Go, legacy assembly and BMI2/ADX assembly side by side in one process
         {"name": "c06-wb-x25519", "pkg": "./dh/x25519", "run": "^TestVerifC06", "whitebox": True, "shards": {"quick": 1, "thorough": 8}},
         {"name": "c06-wb-x448", "pkg": "./dh/x448", "run": "^TestVerifC06", "whitebox": True, "shards": {"quick": 1, "thorough": 8}},
+        # field level: Mul/Sqr of the two fields on the three back-ends with product-structured operands
+        {"name": "c06-wb-fp25519", "pkg": "./math/fp25519", "run": "^TestVerifC06", "whitebox": True, "shards": {"quick": 1, "thorough": 4}},
+        {"name": "c06-wb-fp448", "pkg": "./math/fp448", "run": "^TestVerifC06", "whitebox": True, "shards": {"quick": 1, "thorough": 4}},
     ],
     "rule": "shared/*: case = (scalar k, peer value u) with k from {0, 1, 2^254 resp. 2^447, all-ones, clamping-sensitive first/last octets, single bit, random} and u from "
             "{0, 1, p-1, p, p+1, the low-order values, their non-canonical aliases (+p where it fits, bit 255 for X25519), p+small, all-ones, small, near-p, limb-structured, twist points, curve points, "
             "random non-canonical, random}; non-trivial = k is not 'random' or u is not 'random'/'curve' (i.e. an edge, non-canonical, low-order or twist value). "
             "consequence/*: case = (KEM, key seed, encapsulation seed, u, operation in {decapsulate, encapsulate, auth-decapsulate}); non-trivial = u is an edge/low-order/non-canonical/twist value. "
             "whitebox/*.backends: (k, u) evaluated on generic Go, legacy assembly and BMI2/ADX assembly; non-trivial = u limb-structured, near p or next to a low-order value. "
-            "whitebox/*.primitives: operands of ladderStep/diffAdd/double/mulA24 drawn by vlib.FieldOperand (limb edges, near-modulus, unreduced); non-trivial = at least one operand is not uniform. "
+            "whitebox/*.primitives: operands of ladderStep/diffAdd/double/mulA24 drawn by vlib.FieldOperand (limb edges, near-modulus, unreduced) or product-structured (ref/prodgen: the double-width product is chosen first, "
+            "upper limbs at floor(m*2^64/38) and neighbours / all-ones / zero, factors found by integer square root or division, or x = 2^a +- 2^b +- small); non-trivial = at least one operand is not uniform. "
+            "whitebox/fp*.products: (x, y) product-structured for Mul/Sqr of math/fp25519 and math/fp448 on the three back-ends; every case is non-trivial. "
+            "shared/*: the output buffer is pre-filled with drawn garbage or aliases the public or the secret input. "
             "Distinct by FNV-64 of (sub-check, k, u, ...).",
     "assumptions": COMMON_ASSUME + [
         "ref/mont (math/big ladder written from RFC 7748 section 5, self-tested against the RFC 7748 5.2 and 6 vectors and the 1/1000-iteration vectors) is the oracle for both functions; crypto/ecdh is a second oracle for X25519",
